@@ -115,7 +115,6 @@ impl SentinelRule for Rule {
 
 impl Hash for Rule {
     fn hash<H: Hasher>(&self, state: &mut H) {
-        self.id.hash(state);
         self.metric_type.hash(state);
     }
 }
